@@ -17,22 +17,22 @@ type Prop struct {
 }
 
 var All = []Prop{
-	{"C01", []string{"KEYS", "FLUSH", "PAIR", "DOCFLOW", "ITEMFLAGS", "DEADSTORE", "SKIPPEDEFFECT", "ELEMPTR", "TEMPLATEMAP", "SPRINTEQ", "POOLESCAPE", "REGEXANCHOR", "RECVSTORE", "TRYLOCKSKIP", "LOSSYCMP", "DIRTYGUARD", "TXSHADOW", "LOOSENAME", "POOLDIRTY", "SHAREDSCRATCH", "CUTONCE", "IFACEEQ", "REPEATCMP", "DEADERR", "DEADLINE", "GLOBROOT", "MAPORDER", "POOLRESET", "WALKSKIP", "DIVGUARD", "QUERYRO", "ERRLOOP"},
+	{"C01", []string{"KEYS", "FLUSH", "PAIR", "DOCFLOW", "ITEMFLAGS", "DEADSTORE", "SKIPPEDEFFECT", "ELEMPTR", "TEMPLATEMAP", "SPRINTEQ", "POOLESCAPE", "REGEXANCHOR", "RECVSTORE", "TRYLOCKSKIP", "LOSSYCMP", "DIRTYGUARD", "TXSHADOW", "LOOSENAME", "POOLDIRTY", "SHAREDSCRATCH", "CUTONCE", "IFACEEQ", "REPEATCMP", "DEADERR", "DEADLINE", "GLOBROOT", "MAPORDER", "POOLRESET", "WALKSKIP", "DIVGUARD", "QUERYRO", "ERRLOOP", "NILLIST"},
 		"the document and node id handed to the point store are the very values reported to the indexes, the previous document reported is the one loaded from the store, an update stores exactly the marshalled merge; point-store key tables agree (every key SetPoint writes is deleted by DeletePoint, every key read is written); the id allocator and the point count are persisted on every success exit of the insert and delete transactions; allocated ids flow into the stored point, freed ids belong to the deleted point; the size limit of an update is tested on the merged document that is stored; a read by ids looks every id up (the loop is left only by exhaustion or an error); the id allocator writes both its keys on every flush; no field of the Shard is assigned inside a storage write transaction; an update removes from the merged document only the fields the request names (no sweep over the merged map); each batch method opens one write transaction, not in a loop; a pooled set goes back to its pool emptied on every path",
 		"equality of stored documents, ids and counts with a reference model after arbitrary histories; merge semantics of update; reported id lists", 8},
-	{"C02", []string{"MERGE", "FOLD", "ENUM", "OPTABLE", "SORTABLE", "SCAN", "DOCFLOW", "DEADSTORE", "SKIPPEDEFFECT", "ELEMPTR", "TEMPLATEMAP", "SPRINTEQ", "POOLESCAPE", "REGEXANCHOR", "RECVSTORE", "TRYLOCKSKIP", "LOSSYCMP", "DIRTYGUARD", "LOOSENAME", "POOLDIRTY", "SHAREDSCRATCH", "CUTONCE", "IFACEEQ", "RANK", "REPEATCMP", "DEADERR", "DEADLINE", "GLOBROOT", "MAPORDER", "POOLRESET", "WALKSKIP", "DIVGUARD", "QUERYRO", "ERRLOOP"},
+	{"C02", []string{"MERGE", "FOLD", "ENUM", "OPTABLE", "SORTABLE", "SCAN", "DOCFLOW", "DEADSTORE", "SKIPPEDEFFECT", "ELEMPTR", "TEMPLATEMAP", "SPRINTEQ", "POOLESCAPE", "REGEXANCHOR", "RECVSTORE", "TRYLOCKSKIP", "LOSSYCMP", "DIRTYGUARD", "LOOSENAME", "POOLDIRTY", "SHAREDSCRATCH", "CUTONCE", "IFACEEQ", "RANK", "REPEATCMP", "DEADERR", "DEADLINE", "GLOBROOT", "MAPORDER", "POOLRESET", "WALKSKIP", "DIVGUARD", "QUERYRO", "ERRLOOP", "NILLIST"},
 		"every bucket implementation compares iterated keys with range bounds by the comparison its inclusiveness needs; the indexes are told the stored previous and new documents of every change; every key operand that reaches the inverted index is case-folded iff its siblings are; every operator accepted by validation has a handler; each range operator scans exactly (start,end,inclusive) its name means; the order-preserving key codec maps every sign class to the right half of the key space monotonically and is inverted by the decoder; a range scan compares the iterated key with its start bound as well; no change is taken for 'no change' by comparing renderings; a read by ids looks every id up; a dirty flag is only ever set (never assigned a computed value outside a flush); a case fold that depends on the index's case-sensitivity does so for every operand; containsAll over an array intersects a posting set for every queried element",
 		"set equality of results with a model; postings after arbitrary update histories; _and/_or algebra", 30},
 	{"C03", []string{"RANK", "DEADSTORE", "SKIPPEDEFFECT", "ELEMPTR", "TEMPLATEMAP", "SPRINTEQ", "POOLESCAPE", "REGEXANCHOR", "RECVSTORE", "TRYLOCKSKIP", "LOSSYCMP", "DIRTYGUARD", "DOCFLOW", "LOOSENAME", "POOLDIRTY", "SHAREDSCRATCH", "CUTONCE", "IFACEEQ", "QDIST", "REPEATCMP", "DEADERR", "DEADLINE", "GLOBROOT", "ITEMFLAGS", "MAPORDER", "ORDERING", "POOLRESET"},
 		"the graph search appends a result only behind a comparison of the element's id with the entry node's id, only while fewer than limit results are held, with hybrid score minus weight times distance, and puts that very id into the returned id set; with a filter, greedy search adds to the filtered result set only points taken from the filter or tested with filter.Contains; the default weight replaces only an absent weight; with a filter the returned set is never the unfiltered search set; the visiting loop is bounded by the size the search set was created with; no TryLock failure is reported as success; the index is searched with the pre-filter of its own option block; the set of nodes unlinked before re-insertion covers updated points as well as deleted ones; the cosine and dot metrics are 1 - k and -k of the kernel's inner product",
 		"that no deleted or duplicate point is returned after arbitrary histories, that distances are those of the configured metric, ordering, and the exactness regimes (values computed by greedy search over a history-built graph)", 7},
-	{"C05", []string{"RANK", "DEADSTORE", "SKIPPEDEFFECT", "ELEMPTR", "TEMPLATEMAP", "SPRINTEQ", "POOLESCAPE", "REGEXANCHOR", "RECVSTORE", "TRYLOCKSKIP", "LOSSYCMP", "DIRTYGUARD", "DOCFLOW", "LOOSENAME", "POOLDIRTY", "SHAREDSCRATCH", "CUTONCE", "IFACEEQ", "REPEATCMP", "DEADERR", "DEADLINE", "GLOBROOT", "MAPORDER", "POOLRESET", "WALKSKIP", "DIVGUARD", "QUERYRO", "ERRLOOP"},
+	{"C05", []string{"RANK", "DEADSTORE", "SKIPPEDEFFECT", "ELEMPTR", "TEMPLATEMAP", "SPRINTEQ", "POOLESCAPE", "REGEXANCHOR", "RECVSTORE", "TRYLOCKSKIP", "LOSSYCMP", "DIRTYGUARD", "DOCFLOW", "LOOSENAME", "POOLDIRTY", "SHAREDSCRATCH", "CUTONCE", "IFACEEQ", "REPEATCMP", "DEADERR", "DEADLINE", "GLOBROOT", "MAPORDER", "POOLRESET", "WALKSKIP", "DIVGUARD", "QUERYRO", "ERRLOOP", "NILLIST"},
 		"containsAll intersects and containsAny unites the term sets; with a filter the match set is intersected with it before any result is built; hybrid score is plus weight times score; results are sorted by score, highest first, before the head is cut to the limit; the search never mutates a bitmap that can be a cached posting set; a document with tokens always gets its record (frequencies, length) stored; every query term contributes its posting set; a state-changing call is not skipped by the short-circuit of the flag it feeds; a persisted counter whose write-out is guarded by a flag sets the flag wherever it changes; a change is dropped by the dispatch transform only for a reason involving both old and new value; query terms collected into a slice are collected behind a membership test; the text index is searched with its own option block's filter",
 		"the tf-idf arithmetic itself, analysis of text into tokens, corpus statistics after arbitrary histories", 7},
-	{"C06", []string{"MERGE", "RANK", "DEADSTORE", "SKIPPEDEFFECT", "ELEMPTR", "TEMPLATEMAP", "SPRINTEQ", "POOLESCAPE", "REGEXANCHOR", "RECVSTORE", "TRYLOCKSKIP", "LOSSYCMP", "DIRTYGUARD", "LOOSENAME", "POOLDIRTY", "SHAREDSCRATCH", "CUTONCE", "IFACEEQ", "REPEATCMP", "DEADERR", "DEADLINE", "GLOBROOT", "MAPORDER", "POOLRESET", "WALKSKIP", "DIVGUARD", "QUERYRO", "ERRLOOP"},
+	{"C06", []string{"MERGE", "RANK", "DEADSTORE", "SKIPPEDEFFECT", "ELEMPTR", "TEMPLATEMAP", "SPRINTEQ", "POOLESCAPE", "REGEXANCHOR", "RECVSTORE", "TRYLOCKSKIP", "LOSSYCMP", "DIRTYGUARD", "LOOSENAME", "POOLDIRTY", "SHAREDSCRATCH", "CUTONCE", "IFACEEQ", "REPEATCMP", "DEADERR", "DEADLINE", "GLOBROOT", "MAPORDER", "POOLRESET", "WALKSKIP", "DIVGUARD", "QUERYRO", "ERRLOOP", "NILLIST"},
 		"_or selects the union and _and the intersection of the sub-results; a merged result is appended only when its node id was not seen, otherwise its hybrid score is added to the entry held; in a conjunction results outside the intersection are never appended; every return of merged ranked results (beyond the single sub-query shortcut) comes after a sort by hybrid score, highest first; the page is results[min(offset,len):min(offset+limit,len)]; the sort-key comparator puts points lacking the key last and swaps operands per key when that key is descending; hybrid score signs of the three ranking indexes; every successful return of results is the page slice (except over tests of offset and limit only); 64-bit integers are not ordered through float64; no pointer to an element is kept across appends; two values of type any are not compared with == unless one is known comparable",
 		"the values of the scores, stability of ties, selected field contents and nested-path rebuilding", 12},
-	{"C04", []string{"KEYS", "ENUM", "RANK", "BORROW", "DEADSTORE", "SKIPPEDEFFECT", "ELEMPTR", "TEMPLATEMAP", "SPRINTEQ", "POOLESCAPE", "REGEXANCHOR", "RECVSTORE", "TRYLOCKSKIP", "LOSSYCMP", "DIRTYGUARD", "DOCFLOW", "FLUSH", "LOOSENAME", "POOLDIRTY", "QDIST", "SHAREDSCRATCH", "CUTONCE", "IFACEEQ", "REPEATCMP", "DEADERR", "DEADLINE", "GLOBROOT", "ITEMFLAGS", "MAPORDER", "POOLRESET", "WALKSKIP", "DIVGUARD", "QUERYRO", "ERRLOOP"},
+	{"C04", []string{"KEYS", "ENUM", "RANK", "BORROW", "DEADSTORE", "SKIPPEDEFFECT", "ELEMPTR", "TEMPLATEMAP", "SPRINTEQ", "POOLESCAPE", "REGEXANCHOR", "RECVSTORE", "TRYLOCKSKIP", "LOSSYCMP", "DIRTYGUARD", "DOCFLOW", "FLUSH", "LOOSENAME", "POOLDIRTY", "QDIST", "SHAREDSCRATCH", "CUTONCE", "IFACEEQ", "REPEATCMP", "DEADERR", "DEADLINE", "GLOBROOT", "ITEMFLAGS", "MAPORDER", "POOLRESET", "WALKSKIP", "DIVGUARD", "QUERYRO", "ERRLOOP", "NILLIST"},
 		"nothing a vector store or an index keeps (cached items, quantiser parameters) shares memory with the byte slices a storage bucket handed out: every retained slice passes through a copy; the flat scan stores a result only where no filter was given or the point is in it, grows its buffer only while len < cap with cap = limit, and scores minus weight times distance; every item a vector store writes is enumerable (IdFromKey), readable (ReadFrom) and fully removable (DeleteFrom) from a cold cache; every distance metric validation accepts is routed to a registered function; a deleted cache element is removed from the bucket whatever its other flags; a vector store is trained before it is flushed, never after; the default weight replaces only an absent weight; candidates are kept and ordered by distance, never by hybrid score; the flat index is searched with the pre-filter of its own option block; the cosine and dot metrics are 1 - k and -k of the kernel's inner product",
 		"k-nearest-neighbour exactness and reported distance values", 12},
 	{"C07", []string{"TXSTATE", "SCRAP", "ERRS", "JOIN", "LOCKPAIR", "FLUSH", "TXSHADOW", "DOCFLOW", "DEADERR", "ERRLOOP"},
@@ -44,16 +44,16 @@ var All = []Prop{
 	{"C09", []string{"ROEFFECT", "GUARD", "LOCKORDER", "LOCKPAIR", "JOIN", "SCRAP", "ATOMIC", "BORROW", "GOCAPTURE", "WITHCB", "WGWAIT", "ORDERING", "RANK", "SHAREDSCRATCH", "DOCFLOW", "TXLEAK"},
 		"the documents a search returns own their memory (they do not point into the storage engine's memory map, which later writes reuse and remap); a lookup-then-update of a guarded registry map stays inside one critical section; no store into shared cached state is reachable from a read-only cache callback without a mutex of the stored-to object held; every access to the guarded maps and pointers holds the guarding lock; the lock-class order graph has no cycle outside the reasoned exceptions; every lock acquired is released on every exit; Transaction.With hands its callback only an element that is locked and was tested not-scrapped under that lock; a function that starts goroutines on a local WaitGroup does not return before they are done; no goroutine in a loop reads a variable the loop re-assigns; a search runs in one read transaction; stateful scratch objects (decoders, buffers, hashes) kept in fields are used only under a lock of their owner; a node's neighbour list counts as loaded only behind its loaded flag",
 		"that a search's results come from one committed version (snapshot / cache version skew); final-state equality with a sequential model", 120},
-	{"C10", []string{"PAIR", "KEYS", "FLUSH", "DEGREE", "ITEMFLAGS", "DOCFLOW", "DEADSTORE", "SKIPPEDEFFECT", "ELEMPTR", "TEMPLATEMAP", "SPRINTEQ", "POOLESCAPE", "REGEXANCHOR", "RECVSTORE", "TRYLOCKSKIP", "LOSSYCMP", "DIRTYGUARD", "LOOSENAME", "ORDERING", "POOLDIRTY", "RANK", "SHAREDSCRATCH", "CUTONCE", "IFACEEQ", "REPEATCMP", "DEADERR", "DEADLINE", "GLOBROOT", "MAPORDER", "POOLRESET", "WALKSKIP", "DIVGUARD", "QUERYRO", "ERRLOOP"},
+	{"C10", []string{"PAIR", "KEYS", "FLUSH", "DEGREE", "ITEMFLAGS", "DOCFLOW", "DEADSTORE", "SKIPPEDEFFECT", "ELEMPTR", "TEMPLATEMAP", "SPRINTEQ", "POOLESCAPE", "REGEXANCHOR", "RECVSTORE", "TRYLOCKSKIP", "LOSSYCMP", "DIRTYGUARD", "LOOSENAME", "ORDERING", "POOLDIRTY", "RANK", "SHAREDSCRATCH", "CUTONCE", "IFACEEQ", "REPEATCMP", "DEADERR", "DEADLINE", "GLOBROOT", "MAPORDER", "POOLRESET", "WALKSKIP", "DIVGUARD", "QUERYRO", "ERRLOOP", "NILLIST"},
 		"every site that adds a graph edge is bounded by the degree bound (result check or a dominating guard with enough slack); a cached item deleted and re-put in one transaction stays live; graph node and stored vector are created and removed together for the same id; deleting an item removes every key a write may have created; the id allocator is persisted and its ids are paired with the points stored and deleted; every successful pruneDeleteNeighbour replaces the node's edge list; the id allocator writes both keys on every flush; a method result compared with the degree bound is a length on every return; the unlink set covers updated and deleted points",
 		"dangling edges, self-loops, the degree bound and id bounds after arbitrary histories", 12},
-	{"C11", []string{"LOCKPAIR", "LOCKORDER", "SCRAP", "GUARD", "TXSTATE", "ATOMIC", "DEADSTORE", "WITHCB", "SKIPPEDEFFECT", "ELEMPTR", "TEMPLATEMAP", "SPRINTEQ", "POOLESCAPE", "REGEXANCHOR", "RECVSTORE", "TRYLOCKSKIP", "LOSSYCMP", "DIRTYGUARD", "LOOSENAME", "POOLDIRTY", "SHAREDSCRATCH", "CUTONCE", "IFACEEQ", "REPEATCMP", "DEADERR", "DEADLINE", "GLOBROOT", "MAPORDER", "POOLRESET", "WALKSKIP", "DIVGUARD", "QUERYRO", "ERRLOOP"},
+	{"C11", []string{"LOCKPAIR", "LOCKORDER", "SCRAP", "GUARD", "TXSTATE", "ATOMIC", "DEADSTORE", "WITHCB", "SKIPPEDEFFECT", "ELEMPTR", "TEMPLATEMAP", "SPRINTEQ", "POOLESCAPE", "REGEXANCHOR", "RECVSTORE", "TRYLOCKSKIP", "LOSSYCMP", "DIRTYGUARD", "LOOSENAME", "POOLDIRTY", "SHAREDSCRATCH", "CUTONCE", "IFACEEQ", "REPEATCMP", "DEADERR", "DEADLINE", "GLOBROOT", "MAPORDER", "POOLRESET", "WALKSKIP", "DIVGUARD", "QUERYRO", "ERRLOOP", "NILLIST"},
 		"the cache registry is looked up and published in one critical section; marking a failed cache scrapped is unconditional before its lock is released; the cache transaction is committed only after the storage transaction returned, with a flag that tests its error; every lock of the cache manager is released on every exit, the write lock handed to the transaction is registered on the same path and unlocked by Commit for every registered cache; lock classes are acquired in an acyclic order; a failed callback or commit scraps and unregisters the cache; readers never block on an existing cache; Transaction.With hands its callback only an element that is locked and was tested not-scrapped under that lock, and an element it publishes is locked before the manager lock is released",
 		"that readers observe a quiescent cache (ROEFFECT under C09); fairness", 60},
 	{"C12", []string{"LOCKORDER", "GUARD", "LIFECYCLE", "LOCKPAIR", "ATOMIC", "TXLEAK"},
 		"the shard manager's locks are acquired in an acyclic order and released on every exit; the shard pointer and the shard map are only touched under their locks; the pointer is nil-checked under the lock before use, cleared after Close, and shard files are removed only under the store lock after un-registration; signals to the idle routine never block; the nil test of the shard pointer and its use are in one critical section; an entry leaves the registry only once its shard is closed; a helper returns holding a lock only if it does so on every return of that kind; the shard pointer given to a DoWithShard callback does not outlive the callback; hand-managed storage transactions are closed on every path",
 		"liveness beyond mutex deadlock (channel waits other than the checked non-blocking sends)", 25},
-	{"C13", []string{"PURITY", "ROUTE", "DEADSTORE", "GOCAPTURE", "SKIPPEDEFFECT", "ELEMPTR", "TEMPLATEMAP", "SPRINTEQ", "POOLESCAPE", "REGEXANCHOR", "RECVSTORE", "TRYLOCKSKIP", "LOSSYCMP", "DIRTYGUARD", "TXSHADOW", "LOOSENAME", "POOLDIRTY", "SHAREDSCRATCH", "CUTONCE", "IFACEEQ", "REPEATCMP", "DEADERR", "DEADLINE", "GLOBROOT", "MAPORDER", "POOLRESET", "WALKSKIP", "DIVGUARD", "QUERYRO", "ERRLOOP"},
+	{"C13", []string{"PURITY", "ROUTE", "DEADSTORE", "GOCAPTURE", "SKIPPEDEFFECT", "ELEMPTR", "TEMPLATEMAP", "SPRINTEQ", "POOLESCAPE", "REGEXANCHOR", "RECVSTORE", "TRYLOCKSKIP", "LOSSYCMP", "DIRTYGUARD", "TXSHADOW", "LOOSENAME", "POOLDIRTY", "SHAREDSCRATCH", "CUTONCE", "IFACEEQ", "REPEATCMP", "DEADERR", "DEADLINE", "GLOBROOT", "MAPORDER", "POOLRESET", "WALKSKIP", "DIVGUARD", "QUERYRO", "ERRLOOP", "NILLIST"},
 		"a server's score depends on (key, that server) only; the ranking comparator depends on its operands only; every RPC destination is RendezvousHash over the node's full, immutable server list; a goroutine started in a loop never reads a destination or request variable that the loop keeps re-assigning, and no field assigned on a request is lost because the struct was copied before; every value a destination can take is the RendezvousHash owner (no shortcut returns the node's own name); the server list a node routes by is the configured list as it came",
 		"64-bit score ties; statistical uniformity of the hash", 25},
 	{"C14", []string{"TRANSFER", "BORROW", "TEMPLATEMAP", "LOOSENAME", "TENANT", "ERRS", "GLOBROOT", "WALKSKIP"},
@@ -65,10 +65,10 @@ var All = []Prop{
 	{"C16", []string{"TENANT", "REGEXANCHOR", "HANDLERSHARED", "BORROW", "POOLRESET"},
 		"every key and scan prefix on the collection records is user id + delimiter (+ collection id) of the request; shard directories are built from the collection's user id and id; handlers take the user id only from the authenticated headers; validation patterns are anchored at both ends; request handlers do not assign to variables shared between requests; the user id put into the request context is the header value unchanged; a hand-built Collection that names its id names its user id",
 		"isolation as observed over HTTP for interleaved histories", 18},
-	{"C17", []string{"ROUTE", "FANOUT", "SORTED", "DEADSTORE", "GOCAPTURE", "REPLYFLAGS", "TXRMW", "SKIPPEDEFFECT", "ELEMPTR", "WGWAIT", "TEMPLATEMAP", "SPRINTEQ", "POOLESCAPE", "REGEXANCHOR", "RECVSTORE", "TRYLOCKSKIP", "LOSSYCMP", "DIRTYGUARD", "TXSHADOW", "LOOSENAME", "POOLDIRTY", "SHAREDSCRATCH", "CUTONCE", "IFACEEQ", "REPEATCMP", "DEADERR", "DEADLINE", "GLOBROOT", "MAPORDER", "POOLRESET", "WALKSKIP", "DIVGUARD", "QUERYRO", "ERRLOOP"},
+	{"C17", []string{"ROUTE", "FANOUT", "SORTED", "DEADSTORE", "GOCAPTURE", "REPLYFLAGS", "TXRMW", "SKIPPEDEFFECT", "ELEMPTR", "WGWAIT", "TEMPLATEMAP", "SPRINTEQ", "POOLESCAPE", "REGEXANCHOR", "RECVSTORE", "TRYLOCKSKIP", "LOSSYCMP", "DIRTYGUARD", "TXSHADOW", "LOOSENAME", "POOLDIRTY", "SHAREDSCRATCH", "CUTONCE", "IFACEEQ", "REPEATCMP", "DEADERR", "DEADLINE", "GLOBROOT", "MAPORDER", "POOLRESET", "WALKSKIP", "DIVGUARD", "QUERYRO", "ERRLOOP", "NILLIST"},
 		"the failed-point bookkeeping binary-searches only a slice that was sorted as a whole; every RPC handler forwards to itself on the destination server with its own arguments, guarded by the destination test, and acts locally only on the destination; fan-outs cover the collection's complete shard list; \"not found\" is only reported when every shard answered; merged search results are cut to the client's limit; merged shard results are sorted before every successful return with more than one shard; reply flags are read; a record is read and written back in one transaction; fan-out functions wait for their goroutines; the counter that decides 'every shard answered' is incremented only where the call succeeded; no comparator compares the same operands twice",
 		"exactly-once effects, merge order and failed-point bookkeeping values", 30},
-	{"C18", []string{"MERGE", "VALID", "LIMITS", "ENUM", "TYPETAB", "TAGGED", "VECLEN", "HANDBUILT", "DEADSTORE", "SKIPPEDEFFECT", "ELEMPTR", "TEMPLATEMAP", "SPRINTEQ", "POOLESCAPE", "REGEXANCHOR", "RECVSTORE", "TRYLOCKSKIP", "LOSSYCMP", "DIRTYGUARD", "HANDLERSHARED", "DOCFLOW", "LOOSENAME", "POOLDIRTY", "SHAREDSCRATCH", "CUTONCE", "IFACEEQ", "REPEATCMP", "DEADERR", "DEADLINE", "GLOBROOT", "MAPORDER", "POOLRESET", "WALKSKIP", "DIVGUARD", "QUERYRO", "ERRLOOP"},
+	{"C18", []string{"MERGE", "VALID", "LIMITS", "ENUM", "TYPETAB", "TAGGED", "VECLEN", "HANDBUILT", "DEADSTORE", "SKIPPEDEFFECT", "ELEMPTR", "TEMPLATEMAP", "SPRINTEQ", "POOLESCAPE", "REGEXANCHOR", "RECVSTORE", "TRYLOCKSKIP", "LOSSYCMP", "DIRTYGUARD", "HANDLERSHARED", "DOCFLOW", "LOOSENAME", "POOLDIRTY", "SHAREDSCRATCH", "CUTONCE", "IFACEEQ", "REPEATCMP", "DEADERR", "DEADLINE", "GLOBROOT", "MAPORDER", "POOLRESET", "WALKSKIP", "DIVGUARD", "QUERYRO", "ERRLOOP", "NILLIST"},
 		"for every vector index type both schema validators compare the vector length with the index dimension on every success path; queries built by hand in a handler satisfy the validator of their own type; request bodies are only read through DecodeValid, which only succeeds after Validate; no failing validation edge can reach a cluster call; every documented limit is enforced by the hand-written validators; index-type and quantizer dispatchers are exhaustive; the types validation normalises to are the types the index dispatcher asserts; optional union payloads are only dereferenced behind a nil or tag test; on every successful way through Query.Validate every option block it validates at all was looked at; a validator does not assign defaults to a copy of its receiver; the pre-filter of every option block is validated on the way through Query.Validate; a dotted property path is not resolved with a single Cut; no == between two unknown any values",
 		"absence of panics in general for all request bytes; panics on goroutines outside the recovery middleware", 150},
 	{"C19", []string{"SORTABLE", "LAYOUT", "KEYS"},
@@ -200,6 +200,7 @@ var RuleFloors = map[string]RuleFloor{
 	"DIVGUARD":      {8, []string{"C18"}},
 	"QUERYRO":       {8, []string{"C02"}},
 	"ERRLOOP":       {16, []string{"C07"}},
+	"NILLIST":       {10, []string{"C17"}},
 	"CUTONCE":       {10, []string{"C18"}},
 	"IFACEEQ":       {10, []string{"C18"}},
 	"REPEATCMP":     {10, []string{"C17"}},
@@ -268,6 +269,30 @@ func init() {
 	Technique["C18"] += "; guard-edge dominance of divisions by a length; clamp-before-sum shape of the page bounds"
 	Technique["C07"] += "; loop-phi use analysis of error values; reachability of success returns avoiding the blocks that test an error"
 	Technique["C16"] += "; edge dominance of the scan callback by the prefix test in both storage backends"
+}
+
+// round9Decides: the clauses of DESIGN.md addendum 9.
+var round9Decides = map[string]string{
+	"C02": "the array index's diff looks for the values an array lost on every way to a successful return (or knows there were no previous values)",
+	"C03": "the hit bitmap a vector search returns starts as an empty bitmap (it is not derived from the pre-filter)",
+	"C05": "the term map of a stored document record is built afresh on an update (or terms are deleted from it)",
+	"C07": "an error of a storage call that is only written to the log counts as lost",
+	"C09": "a failed transaction marks a cache scrapped and unpublishes it before it releases that cache's write lock, in the same pass",
+	"C10": "an error of a storage call that is only written to the log counts as lost (the recorded maximum node id is written or the batch fails)",
+	"C15": "the comparison that refuses a request over quota involves both the shards' point counts and the number of points of the request",
+	"C16": "the registry of loaded shards is keyed by a value that derives from the user id (the shard directory)",
+	"C17": "no list field of a request model is compared with nil (an empty list and an absent one are the same request)",
+	"C18": "for every index type that has a parameter block, schema validation tests that very block for nil before it accepts the entry",
+}
+
+func init() {
+	for i := range All {
+		if t, ok := round9Decides[All[i].ID]; ok {
+			All[i].Decides += "; " + t
+		}
+	}
+	Technique["C18"] += "; per-tag reachability in Validate avoiding the nil test of the tag's own block"
+	Technique["C16"] += "; provenance of every key of the loaded-shard registry"
 }
 
 // The constructs of core.AlsoServes are reported by the checks of further properties: their rule
